@@ -222,13 +222,11 @@ func (s *LocalSupervisor) Terminate(ctx context.Context, req *model.TerminateReq
 		return err
 	}
 
-	pgid, err := syscall.Getpgid(pid)
-
-	if err == nil {
-		// Negative pid sends signal to all in process group
-		// best effort, ignore errors
-		_ = syscall.Kill(-pgid, syscall.SIGTERM)
-	} else {
+	// Negative pid sends signal to all in process group (the process is the leader of its own
+	// group, so the group id is its pid; Getpgid fails once the leader has exited and been reaped
+	// although members of the group may be left)
+	// best effort, ignore errors
+	if err := syscall.Kill(-pid, syscall.SIGTERM); err != nil {
 		_ = syscall.Kill(pid, syscall.SIGTERM)
 	}
 
